@@ -187,9 +187,9 @@ theorem tri_sendAnswer (P : Ctl) : Tri w (fun s => s.canStartBypass = false ∧ 
   split
   · exact ⟨m, a, p⟩
   · split
-    · exact ⟨m.setAnswer _ (fun _ h => by cases h) hb, AuxG.of_sameAux (s := s) ⟨rfl, rfl, rfl, rfl, rfl⟩ a, p⟩
+    · exact ⟨m.setAnswer _ (fun _ h => by cases h) (fun _ => hb), AuxG.of_sameAux (s := s) ⟨rfl, rfl, rfl, rfl, rfl⟩ a, p⟩
     · rename_i hh
-      refine ⟨m.setAnswer _ (fun h => ?_) hb, AuxG.of_sameAux (s := s) ⟨rfl, rfl, rfl, rfl, rfl⟩ a, p⟩
+      refine ⟨m.setAnswer _ (fun h => ?_) (fun _ => hb), AuxG.of_sameAux (s := s) ⟨rfl, rfl, rfl, rfl, rfl⟩ a, p⟩
       rw [h] at hh; simp at hh
 
 /-- startSending(): whatever is known about parsing/head/uob stays; a virgin sender may finish -/
